@@ -439,7 +439,11 @@ class Array(DaskMethodsMixin):
         """
         from dask.base import compute
 
-        chunk_shapes = self.map_blocks(
+        # The explicit per-block ``chunks=`` below, and the ChunksOverride at
+        # the end (a 1:1 alias of blocks by index), are both frozen to the
+        # advertised block grid; pin that grid through optimization.
+        frozen = self.freeze_chunks()
+        chunk_shapes = frozen.map_blocks(
             _get_chunk_shape,
             dtype=int,
             chunks=tuple(len(c) * (1,) for c in self.chunks) + ((self.ndim,),),
@@ -461,7 +465,7 @@ class Array(DaskMethodsMixin):
         # In the expression system, wrap with ChunksOverride to set the new chunks
         from dask_array._expr import ChunksOverride
 
-        self._replace_expr(ChunksOverride(self._expr, new_chunks))
+        self._replace_expr(ChunksOverride(frozen.expr, new_chunks))
 
         return self
 
